@@ -4,4 +4,6 @@
 f12_0:
   ret
   call f17_0
+  mov wvsv1@GOTPCREL(%rip),%rax
+  mov wvsv0(%rip),%rax
   ret
